@@ -2,6 +2,7 @@ package an
 
 import (
 	"fmt"
+	"go/constant"
 	"go/token"
 	"go/types"
 	"sort"
@@ -285,6 +286,10 @@ type gateRun struct {
 	checkVals     map[ssa.Value]Polarity // values produced by check sites (tested result) with the polarity that passes
 	checkCalls    []ssa.CallInstruction
 	passEdges     EdgeSet
+	// pathSensitive: a test on a phi that merges the check's result with other values passes only on the paths that
+	// enter over the check's own incoming edges (recorded in cond); off for MUSTREACH/REFUSE, which use edges differently
+	pathSensitive bool
+	cond          map[Edge]map[*ssa.BasicBlock]bool
 	tested        int
 	tails         int // returns whose value is the check's own result (the return is the gate)
 }
@@ -786,8 +791,28 @@ func (c *CmpPat) match(bin *ssa.BinOp) (holds bool, ok bool) {
 		}
 	}
 	// lengths are non-negative: len(x) == 0 is also spelled len(x) <= 0, len(x) < 1, 0 >= len(x), 1 > len(x);
-	// len(x) != 0 is len(x) > 0, len(x) >= 1, 0 < len(x), 1 <= len(x)
-	if c.Op == token.EQL {
+	// len(x) != 0 is len(x) > 0, len(x) >= 1, 0 < len(x), 1 <= len(x). Both the pattern and the code may use any spelling.
+	isConstPat := func(vp VPat, k int64) bool {
+		return vp.Desc == "const" && vp.M(ssa.NewConst(constant.MakeInt64(k), types.Typ[types.Int])) && !vp.M(ssa.NewConst(constant.MakeInt64(k+7), types.Typ[types.Int]))
+	}
+	// what does the PATTERN say when it holds: "length is zero" (true) / "length is non-zero" (false); lenPat is its length operand
+	var lenPat *VPat
+	patZero := false
+	switch {
+	case c.Op == token.EQL && isConstPat(c.R, 0): // L == 0
+		lenPat, patZero = &c.L, true
+	case c.Op == token.EQL && isConstPat(c.L, 0):
+		lenPat, patZero = &c.R, true
+	case c.Op == token.LEQ && isConstPat(c.R, 0): // L <= 0
+		lenPat, patZero = &c.L, true
+	case c.Op == token.LSS && isConstPat(c.R, 1): // L < 1
+		lenPat, patZero = &c.L, true
+	case c.Op == token.LSS && isConstPat(c.L, 0): // 0 < R
+		lenPat, patZero = &c.R, false
+	case c.Op == token.LEQ && isConstPat(c.L, 1): // 1 <= R
+		lenPat, patZero = &c.R, false
+	}
+	if lenPat != nil {
 		isLen := func(v ssa.Value) bool {
 			call, ok := stripConv(v).(*ssa.Call)
 			if !ok {
@@ -796,38 +821,27 @@ func (c *CmpPat) match(bin *ssa.BinOp) (holds bool, ok bool) {
 			b, ok := call.Call.Value.(*ssa.Builtin)
 			return ok && b.Name() == "len"
 		}
+		// what does the CODE's comparison say when true: normalised as `len OP k`
 		try := func(lenSide, constSide ssa.Value, op token.Token) (bool, bool) {
 			k, isC := ConstInt(constSide)
-			if !isC || !isLen(lenSide) {
+			if !isC || !isLen(lenSide) || !lenPat.M(lenSide) {
 				return false, false
 			}
-			// normalised as: len OP k
-			var zero, known bool
 			switch {
-			case op == token.LEQ && k == 0, op == token.LSS && k == 1:
-				zero, known = true, true
-			case op == token.GTR && k == 0, op == token.GEQ && k == 1:
-				zero, known = false, true
-			}
-			if !known {
-				return false, false
-			}
-			// does the pattern describe len(x) == 0 (either operand order)?
-			z := &ssa.Const{}
-			_ = z
-			if c.L.M(lenSide) && IntV(0).M0(c.R) || c.R.M(lenSide) && IntV(0).M0(c.L) {
-				return zero, true
+			case op == token.EQL && k == 0, op == token.LEQ && k == 0, op == token.LSS && k == 1:
+				return patZero, true // code says "zero" when true
+			case op == token.NEQ && k == 0, op == token.GTR && k == 0, op == token.GEQ && k == 1:
+				return !patZero, true // code says "non-zero" when true
 			}
 			return false, false
 		}
-		switch bin.Op {
-		case token.LEQ, token.LSS, token.GTR, token.GEQ:
-			if h, ok := try(bin.X, bin.Y, bin.Op); ok {
-				return h, true
-			}
-			// constant on the left: k OP len  ==  len OP' k
-			flip := map[token.Token]token.Token{token.LEQ: token.GEQ, token.LSS: token.GTR, token.GTR: token.LSS, token.GEQ: token.LEQ}
-			if h, ok := try(bin.Y, bin.X, flip[bin.Op]); ok {
+		if h, ok := try(bin.X, bin.Y, bin.Op); ok {
+			return h, true
+		}
+		// constant on the left: k OP len  ==  len OP' k
+		flip := map[token.Token]token.Token{token.LEQ: token.GEQ, token.LSS: token.GTR, token.GTR: token.LSS, token.GEQ: token.LEQ, token.EQL: token.EQL, token.NEQ: token.NEQ}
+		if op, known := flip[bin.Op]; known {
+			if h, ok := try(bin.Y, bin.X, op); ok {
 				return h, true
 			}
 		}
@@ -846,14 +860,18 @@ func (g *gateRun) edgesTesting(tv ssa.Value, pass Polarity, into EdgeSet) int {
 		switch pass {
 		case ErrNil, NonNil:
 			v, nilWhenTrue, ok := nilTest(i.Cond)
-			if !ok || !sameValue(v, tv, 4) {
+			if !ok {
+				continue
+			}
+			match, preds := g.testsValue(v, tv, b)
+			if !match {
 				continue
 			}
 			wantNil := pass == ErrNil
 			if nilWhenTrue == wantNil {
-				into[Edge{b, 0}] = true
+				g.addPass(Edge{b, 0}, preds, into)
 			} else {
-				into[Edge{b, 1}] = true
+				g.addPass(Edge{b, 1}, preds, into)
 			}
 			n++
 		case IsTrue, IsFalse:
@@ -882,17 +900,165 @@ func (g *gateRun) edgesTesting(tv ssa.Value, pass Polarity, into EdgeSet) int {
 				}
 				continue
 			}
+			match, preds := g.testsValue(atom, tv, b)
+			if !match {
+				continue
+			}
 			tvWhenCondTrue := !neg
 			want := pass == IsTrue
 			if tvWhenCondTrue == want {
-				into[Edge{b, 0}] = true
+				g.addPass(Edge{b, 0}, preds, into)
 			} else {
-				into[Edge{b, 1}] = true
+				g.addPass(Edge{b, 1}, preds, into)
 			}
 			n++
 		}
 	}
 	return n
+}
+
+// tested: does the branch condition operand v (tested in block b) test the check value tv — always (preds == nil), or only
+// when b is entered from the returned predecessors (v is a phi of b merging tv with other values)?
+func (g *gateRun) testsValue(v, tv ssa.Value, b *ssa.BasicBlock) (bool, map[*ssa.BasicBlock]bool) {
+	if !sameValue(v, tv, 4) {
+		return false, nil
+	}
+	if !g.pathSensitive {
+		return true, nil
+	}
+	if ld, isLoad := v.(*ssa.UnOp); isLoad && ld.Op == token.MUL && v != tv {
+		if cell, isAlloc := ld.X.(*ssa.Alloc); isAlloc {
+			return g.loadIsOf(ld, cell, tv), nil
+		}
+	}
+	phi, ok := v.(*ssa.Phi)
+	if !ok {
+		return true, nil
+	}
+	var yes, no []int
+	for i, e := range phi.Edges {
+		if sameValue(e, tv, 3) {
+			yes = append(yes, i)
+		} else {
+			no = append(no, i)
+		}
+	}
+	if len(no) == 0 {
+		return true, nil
+	}
+	if phi.Block() != b || len(b.Preds) != len(phi.Edges) {
+		return false, nil // cannot attribute the test to the check's paths: not a pass
+	}
+	preds := map[*ssa.BasicBlock]bool{}
+	for _, i := range yes {
+		preds[b.Preds[i]] = true
+	}
+	for _, i := range no {
+		delete(preds, b.Preds[i])
+	}
+	if len(preds) == 0 {
+		return false, nil
+	}
+	return true, preds
+}
+
+// loadIsOf: the load ld of the local variable cell certainly reads the check value tv: a store of tv into the cell (in the
+// load's function) dominates the load, and no store of anything else can execute between that store and the load. (A
+// variable that is assigned the check's result on one branch only, or re-assigned on a path to the test, is not a test of
+// the check on every path.) Stores made by closures are not ordered by this test and are left out.
+func (g *gateRun) loadIsOf(ld *ssa.UnOp, cell *ssa.Alloc, tv ssa.Value) bool {
+	fn := ld.Parent()
+	var match, other []*ssa.Store
+	for _, st := range storesTo(cell) {
+		if st.Parent() != fn {
+			continue
+		}
+		if sameValue(st.Val, tv, 3) {
+			match = append(match, st)
+		} else {
+			other = append(other, st)
+		}
+	}
+	if len(match) == 0 {
+		return true // tv reaches the cell through a closure or a conversion this test does not order: keep the old reading
+	}
+	for _, s := range match {
+		if !InstrDominates(s, ld) {
+			continue
+		}
+		clean := true
+		for _, o := range other {
+			if !storeBetween(s, o, ld) {
+				continue
+			}
+			clean = false
+		}
+		if clean {
+			return true
+		}
+	}
+	return false
+}
+
+// storeBetween: can o execute after s and before ld (s dominates ld)?
+func storeBetween(s, o *ssa.Store, ld ssa.Instruction) bool {
+	pos := func(in ssa.Instruction) int {
+		for i, x := range in.Block().Instrs {
+			if x == in {
+				return i
+			}
+		}
+		return -1
+	}
+	sb, ob, lb := s.Block(), o.Block(), ld.Block()
+	// o after s?
+	afterS := false
+	if ob == sb {
+		afterS = pos(o) > pos(s)
+	}
+	if !afterS {
+		for _, succ := range sb.Succs {
+			if Reach(succ, nil, nil)[ob] {
+				afterS = true
+			}
+		}
+	}
+	if !afterS {
+		return false
+	}
+	// ld reachable from o without executing s again?
+	if ob == lb && pos(o) < pos(ld) {
+		return true
+	}
+	blocked := map[*ssa.BasicBlock]bool{}
+	if sb != ob {
+		blocked[sb] = true
+	}
+	for _, succ := range ob.Succs {
+		if blocked[succ] {
+			continue
+		}
+		if Reach(succ, nil, blocked)[lb] {
+			return true
+		}
+	}
+	return false
+}
+
+func (g *gateRun) addPass(e Edge, preds map[*ssa.BasicBlock]bool, into EdgeSet) {
+	if preds == nil {
+		into[e] = true
+		return
+	}
+	if g.cond == nil {
+		g.cond = map[Edge]map[*ssa.BasicBlock]bool{}
+	}
+	if g.cond[e] == nil {
+		g.cond[e] = map[*ssa.BasicBlock]bool{}
+	}
+	for p := range preds {
+		g.cond[e][p] = true
+	}
 }
 
 func (g *gateRun) assumeEdges(into EdgeSet) {
@@ -941,13 +1107,22 @@ type GateResult struct {
 
 // RunGate decides one gate obligation.
 func (p *Prog) RunGate(g *Gate) GateResult {
-	run := &gateRun{p: p, fn: g.Fn, g: g, checkVals: map[ssa.Value]Polarity{}, passEdges: EdgeSet{}, lift: g.lift}
+	run := &gateRun{p: p, fn: g.Fn, g: g, checkVals: map[ssa.Value]Polarity{}, passEdges: EdgeSet{}, lift: g.lift, pathSensitive: true}
 	var res GateResult
 	res.Pos = g.Fn.Pos()
 	res.CheckSites, res.Tested, res.Complaints = run.findPassEdges(g.Check, run.passEdges)
 	for _, alt := range g.Alt {
 		run.findPassEdges(alt, run.passEdges)
 	}
+	// an edge that is an unconditional pass edge for one check needs no conditional entry
+	for e := range run.cond {
+		if run.passEdges[e] {
+			delete(run.cond, e)
+		}
+	}
+	saved := condRemoved
+	condRemoved = run.cond
+	defer func() { condRemoved = saved }()
 	removed := EdgeSet{}
 	for e := range run.passEdges {
 		removed[e] = true
@@ -976,6 +1151,13 @@ func (p *Prog) RunGate(g *Gate) GateResult {
 				seen[l] = true
 				loops = append(loops, l)
 				blocked[l.Header] = true
+				// nested collections (`for _, xs := range xss { for _, x := range xs { check(x) } }`): exhausting an
+				// enclosing loop is the same kind of exit as exhausting the innermost one
+				for _, outer := range all {
+					if outer != l && outer.Body[l.Header] {
+						blocked[outer.Header] = true
+					}
+				}
 			}
 		}
 		if len(loops) == 0 && res.Tested > 0 && run.liftedForEach == 0 {
@@ -1638,6 +1820,17 @@ func (p *Prog) impliesCheck(h *ssa.Function, c Check, parent *Gate, lift int, si
 		}
 		impliesMemo[k] = 2 // provisional (recursion)
 		g := &Gate{Fn: h, Effect: at.eff, Check: c, lift: lift}
+		if parent != nil {
+			// the parent accepts any of its alternatives: so may the helper (`return (a || b) && c` implies "a or b")
+			if parent.Check.Desc != c.Desc {
+				g.Alt = append(g.Alt, parent.Check)
+			}
+			for _, a := range parent.Alt {
+				if a.Desc != c.Desc {
+					g.Alt = append(g.Alt, a)
+				}
+			}
+		}
 		if parent != nil && parent.ForEach {
 			// the per-element loop may have moved into the helper together with the check
 			g.ForEach, g.Skip, g.AllowEarlyExit = true, parent.Skip, parent.AllowEarlyExit
@@ -1645,7 +1838,7 @@ func (p *Prog) impliesCheck(h *ssa.Function, c Check, parent *Gate, lift int, si
 		r := p.RunGate(g)
 		if g.ForEach && (r.CheckSites == 0 || len(r.Violations) > 0) {
 			// ... or only the check moved and the loop stayed in the caller
-			g2 := &Gate{Fn: h, Effect: at.eff, Check: c, lift: lift}
+			g2 := &Gate{Fn: h, Effect: at.eff, Check: c, Alt: g.Alt, lift: lift}
 			r = p.RunGate(g2)
 		}
 		if r.CheckSites >= 1 && r.EffectSites >= 1 && len(r.Violations) == 0 && len(r.Complaints) == 0 {
